@@ -2,7 +2,7 @@
 from __future__ import annotations
 
 from .. import policy, policy_tree
-from ..engine import c05_fork, monitors, suite
+from ..engine import c05_fork, c05_resume, monitors, suite
 from ..runner import Env, Outcome
 
 THEOREMS = ["C05_source_shape", "C05_attempt_budget", "C05_non_retryable_once", "C05_delay_budget", "C05_retry_requeue",
@@ -51,7 +51,13 @@ EXPLANATION = (
     "delivered twice under stop_after_attempt(2)); retry numbers are never skipped (a record with number k has granted retries 1..k "
     "behind it). Search: executions per lineage vs budget, retry_info numbers/exceptions, reported attempts and elapsed "
     "vs virtual time actually elapsed, stop_after_delay against really-elapsed time; on waiting steps: retry_number = "
-    "failed executions of the invocation so far across suspensions, reported attempts count failures before the wait."
+    "failed executions of the invocation so far across suspensions, reported attempts count failures before the wait. "
+    "Across snapshot/stop/resume (c05_resume): a step with an elapsed-time stop condition (stop_after_delay, stop_before_delay, "
+    "stop_any/stop_all with an attempt limit) suspended in wait_for_event on its first attempt or on a retry is replayed by the reply in "
+    "a run resumed `gap` virtual seconds later and fails: policy.next() gets elapsed = failure time - first body entry (observed before "
+    "the snapshot) and all failures so far, the retry/stop decisions are those of the stop condition recomputed by the harness at the "
+    "really elapsed time, WorkflowFailedEvent / retry_info() report that time, and the serialized waiter carries first_attempt_at = "
+    "that first entry and attempts = failures so far."
 )
 ASSUMPTIONS = suite.ENGINE_ASSUMPTIONS + [
     "first_attempt_at (adapter.get_now) and failed_at (time.time in the step wrapper) are one clock: true on BasicRuntime since fix 1b4aba5 and on the DBOS adapter (epoch seconds); the harness virtualises both",
@@ -74,10 +80,16 @@ def run(env: Env) -> Outcome:
     policy_tree.retry_info_correspondence(env, out, env.budget(300, 4000))
     suite.direct_corr(env, out, env.budget(2000, 40000))
     # + one failed execution has one successor (re-run in place OR retry, c05_fork.mon_fork); the corpus holds the regression case
-    suite.live_runs(env, out, env.budget(200, 4000), [c05_fork.mon_fork, monitors.mon_c05], extra_specs=suite.load_corpus("C05"))
+    suite.live_runs(env, out, env.budget(200, 4000), [c05_fork.mon_fork, monitors.mon_c05], extra_specs=[c for c in suite.load_corpus("C05") if "spec" in c])
     suite.live_runs(env, out, env.budget(300, 6000), [c05_fork.mon_fork, monitors.mon_c05], gen_kwargs={"family": "retry"})
     # collecting steps with retry policies that raise while their collection is incomplete (stale snapshots + failures in one result list)
     suite.live_runs(env, out, env.budget(60, 600), [c05_fork.mon_fork, monitors.mon_c05], gen_kwargs={"family": "fanin", "raise_incomplete": True})
     # retried invocations that suspend in wait_for_event (before / after / around the wait), also under a catch_error handler
     suite.live_runs(env, out, env.budget(120, 2400), [monitors.mon_c05], gen_kwargs={"family": "wait_retry"})
+    # an elapsed-time budget across snapshot -> stop -> resume: a step suspended in wait_for_event (first attempt or a retry) is replayed
+    # in the resumed run and fails; elapsed time handed to the policy / reported / in retry_info() counts from the REAL first attempt
+    c05_resume.resumed_delay_runs(env, out, env.budget(150, 3000), suite.load_corpus("C05"))
+    # K for the same path: to_serialized -> JSON -> from_serialized of generated broker states against the model's `serde` (the generated
+    # waiters include attempts = 0 with a first_attempt_at, and retries with their failure record)
+    suite.serde_corr(env, out, env.budget(200, 4000))
     return out
